@@ -362,6 +362,15 @@ def oracle_cases():
         if not in_range(op, args):
             cases.append(("reject", {"op": op, "args": args}))
         cases.append(("input_spec", {"op": op, "args": args}))
+    # two-index calls far outside the decided ring: multi-digit integers are NOT Voigt / standard indices (c_(11, 22) is not c12,
+    # e_(1, 12) is not a strain) — "out-of-range indices are rejected" for every integer, sampled densely here
+    wide = list(range(-3, 41)) + [45, 46, 55, 56, 64, 65, 66, 67, 77, 99, 100, 101, 111, 112, 123, 140]
+    seen = {(op, tuple(a)) for op, a in all_inputs() if all(isinstance(x, int) and not isinstance(x, bool) for x in a)}
+    for i in wide:
+        for j in wide:
+            for op in ("c_", "e_"):
+                if (op, (i, j)) in seen: continue
+                cases.append(("input_spec", {"op": op, "args": [i, j]}))
     return cases
 
 
